@@ -14,6 +14,7 @@ import json, os, re, shutil, subprocess, sys, time
 
 ROOT = os.path.dirname(os.path.dirname(os.path.abspath(__file__)))
 ENV = dict(os.environ, GOFLAGS="", GOPROXY="off", GOSUMDB="off", GOTOOLCHAIN="local")
+ENV.pop("GOWORK", None)
 
 
 def sh(cmd, cwd=None, timeout=1800):
